@@ -6,6 +6,7 @@ import (
 	"encoding/json"
 	"fmt"
 	"math/big"
+	"sort"
 	"strings"
 	"sync"
 	"time"
@@ -503,6 +504,37 @@ func malformedJWK(cls string, good *jws.JWK, kt concr.KeyType) []*jws.JWK {
 		a := cp()
 		a.X = "***"
 		return []*jws.JWK{a}
+	case "ktyLetterCase", "crvLetterCase":
+		var out []*jws.JWK
+		variants := func(v string) []string {
+			set := map[string]bool{}
+			for _, x := range []string{strings.ToUpper(v), strings.ToLower(v), strings.ToUpper(v[:1]) + strings.ToLower(v[1:]), v[:len(v)-1] + strings.ToUpper(v[len(v)-1:]),
+				strings.ToLower(v[:1]) + v[1:]} {
+				if x != v {
+					set[x] = true
+				}
+			}
+			var l []string
+			for x := range set {
+				l = append(l, x)
+			}
+			sort.Strings(l)
+			return l
+		}
+		if cls == "ktyLetterCase" {
+			for _, v := range variants(good.Kty) {
+				a := cp()
+				a.Kty = v
+				out = append(out, a)
+			}
+		} else {
+			for _, v := range variants(good.Crv) {
+				a := cp()
+				a.Crv = v
+				out = append(out, a)
+			}
+		}
+		return out
 	case "ktyCrvMismatch":
 		a := cp()
 		if kt == concr.Ed25519 {
